@@ -31,6 +31,12 @@ parse.c update operators
                  otherwise → `tmp = &A, *tmp = *tmp op B`
 * `new_inc_dec`: floating or `_Bool`, not atomic, not a bit-field → `tmp1 = &A, tmp2 = *tmp1, *tmp1 = tmp2 + 1, tmp2`
                  otherwise `(typeof A)((A += 1) - 1)` through `to_assign`
+* these two functions are the ONLY readers of `is_atomic` in the compiler besides the bit-field diagnostic of
+  `struct_members` (checklib/C16.py `atomic_sites` compares the list of all sites that mention the field, with their
+  enclosing functions, on every run).  A plain assignment `A = B` (ND_ASSIGN) and a
+  plain read never look at it: they are one store / one load of the object (single instructions for the scalar types
+  of at most 8 bytes: Props/C16Width.lean `C16_plain_access_single`; a byte loop for struct/union, `fstpt`/`fldt` for
+  `long double`: Findings/C16Types.lean).
 
 Not modelled: tokens (the syntax below is the parse tree; the driver prints it as C text and the real parser reads
 that text - the tie), scopes (property C03; typedef names, variables and tags are three flat tables here), VLAs,
